@@ -142,3 +142,36 @@ class StructModel:
             else:
                 mapping[na] = ('field', ('arg', 1, setter.names.get(1)), fi, self.fields[fi]['ty'])
         return subst(t, mapping)
+
+
+# ----------------------------------------------------------------------------- three-point ordering domain
+
+def orderings(guards, a, b, is_float=False):
+    """the subset of {'lt','eq','gt'} (a ? b) (plus 'nan' for floats) consistent with canonical guards"""
+    poss = {'lt', 'eq', 'gt'} | ({'nan'} if is_float else set())
+    sat = {'Lt': {'lt'}, 'Le': {'lt', 'eq'}, 'Eq': {'eq'}, 'Ne': {'lt', 'gt', 'nan'}}
+    flip = {'lt': 'gt', 'gt': 'lt', 'eq': 'eq', 'nan': 'nan'}
+    for g in guards:
+        if g[0] != 'cmp':
+            continue
+        op, x, y, truth = g[1], g[2], g[3], g[4]
+        if (x, y) == (a, b):
+            s = sat[op]
+        elif (x, y) == (b, a):
+            s = {flip[o] for o in sat[op]}
+        else:
+            continue
+        if truth:
+            poss &= s
+        else:
+            poss -= s
+    return poss
+
+
+def requirement_holds(guards, op, a, b, is_float=False):
+    """does `a op b` (op in Lt/Le/Gt/Ge/Eq/Ne) hold for every ordering consistent with guards?
+    returns (bool, set of counterexample orderings)"""
+    need = {'Lt': {'lt'}, 'Le': {'lt', 'eq'}, 'Gt': {'gt'}, 'Ge': {'gt', 'eq'}, 'Eq': {'eq'}, 'Ne': {'lt', 'gt', 'nan'}}[op]
+    poss = orderings(guards, a, b, is_float)
+    bad = poss - need
+    return (not bad), bad
